@@ -38,6 +38,8 @@ def text_of(tb):
             lines.append("    " + SRC)
         if f["src"] == 2:
             lines.append(MARK)
+        if f.get("rep"):
+            lines.append("  [Previous line repeated %d more time%s]" % (f["rep"], "s" if f["rep"] > 1 else ""))
     msg = [MSGL[m] for m in tb["msg"]]
     lines.append(TYPES[tb["etype"]] + (": " + msg[0] if msg else ""))
     lines += msg[1:]
